@@ -365,7 +365,10 @@ def check_memo_key(ctx):
     # the memoised object is the one returned on the miss path: a later request must get what the first one got
     memo_node = ev.events[memo_pos]["node"]
     stored_name = dotted(memo_node.value) if isinstance(memo_node, ast.Assign) else None
-    ctx.need(stored_name is not None, "%s: the memoised value is not a plain name" % site)
+    if stored_name is None:
+        # the stored value is an expression (e.g. the result of a helper): nothing can be rebound afterwards
+        ctx.ob("C18.3", site, True, "the memoised value is an expression stored directly (nothing to rebind afterwards)", nontrivial=False)
+        return _memo_classes(ctx)
     rebinds = [n_ for n_ in ast.walk(f) if isinstance(n_, (ast.Assign, ast.AugAssign)) and n_.lineno > memo_node.lineno
                and any(dotted(t) == stored_name or (isinstance(t, ast.Subscript) and dotted(t.value) == stored_name)
                        for t in (n_.targets if isinstance(n_, ast.Assign) else [n_.target]))]
@@ -378,6 +381,11 @@ def check_memo_key(ctx):
                                                                        and const(r.value.slice) == 0))]
     ctx.ob("C18.3", site, rets and not bad, "the miss path returns the memoised list (or its element 0 for a single field)",
            loc=prog.loc(m, bad[0]) if bad else None, msg="the miss path returns %s, not the memoised %s" % (norm(bad[0].value)[:60] if bad else "nothing", stored_name))
+    return _memo_classes(ctx)
+
+
+def _memo_classes(ctx):
+    prog = ctx.prog
     # classes used inside keys
     fm = prog.module("verif.field")
     for c in fm.classes.values():
